@@ -220,7 +220,20 @@ func createProcess(p *Process, isMethod bool) {
 }
 
 func executeProcess(p *Process) {
-	defer crash.Handler()
+	defer func() {
+		if !crash.Enabled() {
+			return
+		}
+		if r := recover(); r != nil {
+			crash.Report(r)
+			// the process won't get to finish by itself: close it down or
+			// everything that waits on it is left blocked
+			if p.ExitNum == 0 {
+				p.ExitNum = 1
+			}
+			destroyProcess(p)
+		}
+	}()
 	verifhook.Yield("lang.executeProcess.entry")
 
 	testStates(p)
